@@ -19,6 +19,7 @@ func init() {
 	streams["hist"] = &stream{gen: func(r *rand.Rand, id, tier string) string { return genHist(r, id, tier, false) }, run: runHist}
 	streams["histx"] = &stream{gen: func(r *rand.Rand, id, tier string) string { return genHist(r, id, tier, true) }, run: runHist}
 	streams["capx"] = &stream{gen: genCapx, run: runHist}
+	streams["resets"] = &stream{gen: genResets, run: runHist}
 	streams["nest"] = &stream{gen: genNest, run: runHist}
 	streams["pol"] = &stream{gen: genPol, run: runHist}
 	streams["xfer"] = &stream{gen: genXfer, run: runHist}
@@ -251,6 +252,14 @@ func applyOp(s stackage.Stack, op string) string {
 		case "pop":
 			x, ok := s.Pop()
 			return Short(x) + ":" + b01(ok)
+		case "cfg":
+			// the whole configuration record (kind, capacity, options, texts, error) and which policies are present
+			st := stackage.VerifDump(s)
+			bits := ""
+			for _, f := range []uintptr{st.Ppf, st.Vpf, st.Rpf, st.Eqf, st.Umf, st.Maf, st.Evl} {
+				bits += b01(f != 0)
+			}
+			return "D{" + cfgOf(st).String() + "}P" + bits
 		case "ins":
 			x, rest := parseV(t[1:])
 			return b01(s.Insert(Build(x), atoi64(rest[0])))
@@ -539,4 +548,78 @@ func genXfer(r *rand.Rand, id string, tier string) string {
 	}
 	// afterwards the source must still be usable (a lock left behind would block this Push for ever)
 	return src.String() + " | xfer " + dest.String() + " ; push i77"
+}
+
+// resets (C17, Reset clause): any configuration (kind, capacity, options, texts, policies), a history that rebuilds
+// the slice (Remove, Insert at the front, Pop, Reverse ...), then Reset: every element is gone, nil ones included, and
+// the configuration record is what it was; the instance stays usable (pushes under the same capacity and policy).
+func genResets(r *rand.Rand, id string, tier string) string {
+	nextLeaf = 0
+	k := 1 + r.Intn(6)
+	c := Cfg{Kind: kinds(r), Fifo: r.Intn(3) == 0}
+	if r.Intn(3) != 0 {
+		c.Cap = k
+	}
+	for _, f := range []int{fParen, fFold, fNoPad, fLOnce, fNeg, fFwd, fNNest} {
+		if r.Intn(4) == 0 {
+			c.Opt |= f
+		}
+	}
+	if r.Intn(4) == 0 && c.Kind != 4 {
+		c.Sym = []string{"+", "&&", "plus"}[r.Intn(3)] // a LIST takes no symbol
+	}
+	if r.Intn(4) == 0 {
+		c.ID = []string{"id1", "x y"}[r.Intn(2)]
+	}
+	if r.Intn(4) == 0 {
+		c.Cat = "cat"
+	}
+	if r.Intn(3) == 0 {
+		c.Ppf = 1 + r.Intn(4)
+	}
+	if r.Intn(4) == 0 {
+		c.Vpf = 1 + r.Intn(2)
+	}
+	if r.Intn(4) == 0 && c.Kind != 6 {
+		c.Rpf = 1 + r.Intn(2) // a BASIC stack takes no presentation policy
+	}
+	if r.Intn(6) == 0 {
+		c.Eqf = 1 + r.Intn(2)
+	}
+	n0 := r.Intn(k + 1)
+	st := genStackLit(r, c, n0, true)
+	var ops []string
+	body := func(nops int) {
+		for i := 0; i < nops; i++ {
+			switch r.Intn(10) {
+			case 0, 1, 2:
+				var vs []string
+				for j, m := 0, 1+r.Intn(k); j < m; j++ {
+					vs = append(vs, genElem(r).String())
+				}
+				ops = append(ops, "push "+strings.Join(vs, " "))
+			case 3, 4:
+				ops = append(ops, fmt.Sprintf("rem %d", r.Intn(k+1)))
+			case 5:
+				ops = append(ops, fmt.Sprintf("ins %s %d", genLeaf(r), int64(r.Intn(k+2)-1)))
+			case 6:
+				ops = append(ops, "pop")
+			case 7:
+				ops = append(ops, "rev")
+			case 8:
+				ops = append(ops, fmt.Sprintf("rep %s %d", genLeaf(r), r.Intn(k+1)))
+			case 9:
+				ops = append(ops, fmt.Sprintf("swap %d %d", r.Intn(k+1), r.Intn(k+1)))
+			}
+		}
+	}
+	ops = append(ops, "cfg")
+	body(1 + r.Intn(6))
+	ops = append(ops, "reset", "cfg")
+	body(1 + r.Intn(4))
+	if r.Intn(2) == 0 {
+		ops = append(ops, "reset", "cfg")
+		body(r.Intn(3))
+	}
+	return st.String() + " | " + strings.Join(ops, " ; ")
 }
